@@ -63,6 +63,8 @@ def scalar(ip, st, v):
         n = 1000 + len(tab)
         tab[key] = n
         reg.axioms.append(T("(truthy_s %d)" % n, "Bool") if truthy else T("(not (truthy_s %d))" % n, "Bool"))
+        if key.startswith("str:") and getattr(reg, "_str_embed", False):
+            reg.axioms.append(T("(= (key_as_val %s) (S %d))" % (reg.key(key[4:]).s, n), "Bool"))      # see string_embedding
     return T("(S %d)" % tab[key], "Val")
 
 
@@ -70,6 +72,50 @@ def key_as_val(ip, k):
     """a string (Key term) as a context value"""
     f = ip.reg.ufun("key_as_val", ["Key"], "Val")
     return T("(%s %s)" % (f, k.s), "Val")
+
+
+def string_embedding(ip):
+    """the embedding key_as_val of strings into context values, axiomatised (used where context items are used AS strings:
+    concatenation, truth value, `is False`): a string is no dictionary; the embedding is injective (val_as_key inverts it);
+    the empty string is the only falsy one; a string LITERAL stored into a context (scalar id S n) is the embedding of
+    that very string.  Sound: every clause is a fact about python strings; added only to units that use it."""
+    reg = ip.reg
+    reg.need_val()
+    reg.ufun("key_as_val", ["Key"], "Val")
+    reg.ufun("val_as_key", ["Val"], "Key")
+    if getattr(reg, "_str_embed", False):
+        return
+    reg._str_embed = True
+    e = reg.key("")
+    for ax in ("(forall ((k Key)) (! (= (val_as_key (key_as_val k)) k) :pattern ((key_as_val k))))",
+               "(forall ((k Key)) (! (not (isD (key_as_val k))) :pattern ((key_as_val k))))",
+               "(forall ((k Key)) (! (= (vtruthy (key_as_val k)) (not (= k %s))) :pattern ((key_as_val k))))" % e.s):
+        if not any(a.s == ax for a in reg.axioms):
+            reg.axioms.append(T(ax, "Bool"))
+    for key, n in list(getattr(reg, "_scalars", {}).items()):
+        if key.startswith("str:"):
+            reg.axioms.append(T("(= (key_as_val %s) (S %d))" % (reg.key(key[4:]).s, n), "Bool"))
+
+
+def val_as_key_term(ip, t):
+    """the string the context value t is (meaningful when val_is_string(t))"""
+    string_embedding(ip)
+    return T("(val_as_key %s)" % t.s, "Key")
+
+
+def val_is_string(ip, t):
+    """Bool term: the context value t is a string (the embedding of the string val_as_key(t))"""
+    string_embedding(ip)
+    return EQ(t, key_as_val(ip, T("(val_as_key %s)" % t.s, "Key")))
+
+
+def val_is_const(ip, t, const):
+    """Bool term: the context value t IS the object False / True (`x is False`).  Scalars are classes of ==-equal values
+    (False and 0 share one), so identity with the constant is an abstract predicate that implies equality with it."""
+    reg = ip.reg
+    f = reg.ufun("val_is_%s" % ("True" if const else "False"), ["Val"], "Bool")
+    c = scalar(ip, None, Bool(TRUE if const else FALSE))
+    return AND(T("(%s %s)" % (f, t.s), "Bool"), EQ(t, c))
 
 
 def as_key(ip, st, v):
@@ -370,6 +416,14 @@ def key_method(ip, st, recv, name, pos, kws):
         st.assume(T("(>= %s 1)" % reg.l_len(t).s, "Bool"))
         st.assume(T("(=> (= %s 1) (= %s %s))" % (reg.l_len(t).s, reg.l_get(t, I(0)).s, recv.t.s), "Bool"))
         ip.assumptions.add("str.split('.') returns a non-empty list of components; a string without dots is its only component")
+        for lit, kt in list(reg.key_consts.items()):
+            if kt.s == recv.t.s and "|" not in lit and "\\" not in lit:
+                # the constant of a string LITERAL: its components are known
+                comps = lit.split(".")
+                st.assume(EQ(reg.l_len(t), I(len(comps))))
+                for j, cpt in enumerate(comps):
+                    st.assume(EQ(reg.l_get(t, I(j)), reg.key(cpt)))
+                break
         return [(st, ip.new_cell(st, LstCellOf(t)))]
     raise U("str method %s on a symbolic key" % name)
 
